@@ -1620,10 +1620,13 @@ class WriterHistory:
         return None
 
 
+def _simplest_first(hists):
+    """Histories with fewer distinct operations first, so that the prefix recorded first for a finding is a simple one."""
+    return sorted(hists, key=lambda h: len(set(h)))
+
+
 def _w_histories(depth, first=None):
-    for h in itertools.product(W_OPS, repeat=depth):
-        if first is None or h[0] == first:
-            yield h
+    return _simplest_first(h for h in itertools.product(W_OPS, repeat=depth) if first is None or h[0] == first)
 
 
 def _w_violation(rec, name, root, hist, bad):
@@ -1859,8 +1862,7 @@ def _part_p(task, rec):
     d0, sets, partial = p_alphabet(_SEED)
     rec.sample(dict(part='p', prefix=list(prefix), depth=task['depth'], first_file=[list(x) for x in d0],
                     sets=[list(x) for x in sets], partial_file=[list(x) for x in partial]))
-    for tail in itertools.product(p_ops(), repeat=task['depth'] - len(prefix)):
-        hist = prefix + tail
+    for hist in _simplest_first(prefix + tail for tail in itertools.product(p_ops(), repeat=task['depth'] - len(prefix))):
         if any(hist[:k] in dead for k in range(1, len(hist) + 1)):
             continue
         i, bad = run_param_history(hist, seen, rec)
